@@ -7,7 +7,7 @@ import progcases
 
 N = {"quick": 300, "thorough": 8000}
 
-EXTREMES = ["", "\x00", "'", '"', "\\", "a" * 5000, "é", "josé", "😀", " ", " ", "\t\n", "0", "1", "1.0", "True", "None",
+EXTREMES = ["²", "①", "12³", "٣", "0042", "007", "1_000", "+1", " 1", "１２", "",  "\x00", "'", '"', "\\", "a" * 5000, "é", "josé", "😀", " ", " ", "\t\n", "0", "1", "1.0", "True", "None",
             0, 1, -1, 2 ** 63, -(2 ** 64), 10 ** 100, 10 ** 4299, 0.0, -0.0, 1.0, 1.5, 1e300, 1e-300, 5e-324, float("inf"), float("-inf"),
             float("nan"), True, False, None]
 
@@ -57,6 +57,25 @@ def same_print_pairs(ctx, n):
             ctx.violation(f"values printing identically are bucketed differently: {a!r} -> {oa}, {b!r} -> {ob}", {"a": repr(a), "b": repr(b)})
 
 
+def proba_range(ctx):
+    """deterministic_proba(str) is in [0,1) and is the first 32 bits of MD5 / 2^32 — also at the top of the range"""
+    import hashlib
+    from pyab_experiment.binning import binning
+    for k in ["user_4928520601", "", "a", "josé", "\x00", "x" * 1000]:
+        want = int.from_bytes(hashlib.md5(k.encode("utf-8")).digest()[:4], "big") / 2 ** 32
+        got = common.outcome_of(lambda: binning.deterministic_proba(k))
+        ctx.count("proba-range")
+        if got != {"g": common.enc_val(want)} or not (0 <= want < 1):
+            ctx.violation(f"deterministic_proba({k[:20]!r}) = {got}, expected {want!r} in [0,1)", {"key": k, "impl": got, "expected": want})
+    from pyab_experiment.experiment_evaluator import ExperimentEvaluator
+    ev = ExperimentEvaluator('def e { salt: "user_" splitters: uid return "a" weighted 1, "b" weighted 1, "c" weighted 2 }')
+    for uid in (4928520601, "4928520601"):
+        out = common.outcome_of(lambda: ev(uid=uid))
+        if out != {"g": {"s": "c"}}:
+            ctx.violation(f"the unit at the very top of the hash range (salt 'user_', uid {uid!r}, position (2^32-1)/2^32) gets {out}, expected the last group",
+                          {"salt": "user_", "uid": repr(uid), "impl": out})
+
+
 def known_family(ctx):
     """finding family K3: values the str()/UTF-8 pipeline itself rejects"""
     from pyab_experiment.experiment_evaluator import ExperimentEvaluator
@@ -77,6 +96,7 @@ def run(ctx):
                          "pairs of values that print identically")
     progcases.run_cases(ctx, make_cases(ctx, n), want_stages=False)
     same_print_pairs(ctx, 50)
+    proba_range(ctx)
     known_family(ctx)
 
 
